@@ -3,6 +3,7 @@
 R1 every error exit of a build entry releases what the build acquired;
 R2 a failed run is not resumed by the next compile+run; R3 the REPL does not
 adopt a failed line as its snapshot."""
+import re
 from ..core import (callee_of, expr_walk, expr_str, return_defs, short, op_place, MissingAnchor, FROM_RESIDUAL)
 from .. import awrite, inline
 from ..pathq import (try_continue_block, bool_branch, blocks_reaching, blocks_after, exists_path_avoiding)
@@ -43,6 +44,19 @@ GROWN_EXEMPT = {
     'stdout': 'captured output that was already produced',
     'nested': 'restored by popping (releases:nested)', 'ctx': 'restored from nested (releases:ctx)',
 }
+
+
+def _is_depth_plus_one(e):
+    from ..zone import strip as zstrip
+    e = zstrip(e)
+    while isinstance(e, tuple) and e[0] == 'proj' and len(e[2]) == 1 and e[2][0] in (0, '0') and isinstance(e[1], tuple) and e[1][0] == 'bin':
+        e = e[1]
+    if not (isinstance(e, tuple) and e[0] == 'bin' and e[1] in ('Add', 'AddWithOverflow')):
+        return False
+    a, b = zstrip(e[2]), zstrip(e[3])
+    one = lambda x: isinstance(x, tuple) and x[0] == 'const' and isinstance(x[1], dict) and x[1].get('v') == 1
+    frm = lambda x: any(isinstance(y, tuple) and y[0] == 'arg' and y[1] >= 2 for y in expr_walk(x))
+    return (one(b) and frm(a)) or (one(a) and frm(b))
 
 
 def build_entries(fx, V):
@@ -212,7 +226,19 @@ def run(rep, facts, tier):
                             e = f.expr_of_operand(a)
                             txt = expr_str(e, -30)
                             if 'nested' in txt and any(isinstance(x, tuple) and x[0] == 'arg' and x[1] >= 2 for x in expr_walk(e)):
-                                entry_ctx = True
+                                # ... selected by position: the element right above the entry depth (nested[depth + 1]), not the
+                                # last or first of whatever is above it (the innermost open block has younger marks)
+                                by_pos = any(isinstance(x, tuple) and x[0] == 'call' and (x[1].endswith('::get') or x[1].endswith('::index'))
+                                             and len(x[2]) == 2 and 'nested' in expr_str(x[2][0], -8) and _is_depth_plus_one(x[2][1])
+                                             for x in expr_walk(e))
+                                calls = [x for x in expr_walk(e) if isinstance(x, tuple) and x[0] == 'call']
+                                tail = any(x[1].rsplit('::', 1)[-1] in ('split_off', 'drain') and len(x[2]) == 2 and 'nested' in expr_str(x[2][0], -8)
+                                           and any(_is_depth_plus_one(y) for y in expr_walk(x[2][1]) if isinstance(y, tuple)) for x in calls)
+                                head_of_tail = tail and any(x[1].rsplit('::', 1)[-1] in ('first', 'next') for x in calls)
+                                wrong_end = [x[1].rsplit('::', 1)[-1] for x in calls if x[1].rsplit('::', 1)[-1] in ('pop', 'last', 'last_mut', 'next_back')
+                                             and x[2] and 'nested' in expr_str(x[2][0], -12)]
+                                if (by_pos or head_of_tail) and not wrong_end:
+                                    entry_ctx = True
                     if not entry_ctx:
                         ok = False
                         why = ('State.%s is truncated to ctx.%s of the CURRENT context, not of the context opened at build entry: a failure '
@@ -321,7 +347,9 @@ def run(rep, facts, tier):
                 from ..zone import strip as zstrip
                 for (op, a, b) in guard_facts(f, w['bb']):
                     sa, sb = expr_str(zstrip(a), -20), expr_str(zstrip(b), -20)
-                    if op in ('Ge', 'Gt') and 'dict_pos' in sa and 'di_len' in sb or op in ('Le', 'Lt') and 'di_len' in sa and 'dict_pos' in sb:
+                    # the mark of the CURRENT context and nothing else: the mark of the outermost one is 0 for a top-level source
+                    cur = lambda t: re.fullmatch(r'\(\*arg\d+\)\.ctx\.di_len', t) is not None
+                    if op in ('Ge', 'Gt') and 'dict_pos' in sa and cur(sb) or op in ('Le', 'Lt') and cur(sa) and 'dict_pos' in sb:
                         guarded = True
             ok = not searched or guarded
             rep.add('C10.R1', 'C10.R1:in-place-overwrite:%s:%s' % (fn, w['field'][0]), ok,
